@@ -13,6 +13,8 @@ import (
 	"sort"
 	"sync/atomic"
 	"time"
+
+	"github.com/yandex/pandora/zverif/vs"
 )
 
 type Spec struct {
@@ -176,6 +178,9 @@ func (o *Out) NViolations() int { return len(o.Violations) }
 
 func (o *Out) Save() {
 	o.WallS = time.Since(o.start).Seconds()
+	for b, n := range vs.BoundDoneCounts {
+		o.Extra[fmt.Sprintf("explorations_completed_bound_%d", b)] += n
+	}
 	sort.SliceStable(o.Violations, func(i, j int) bool { return o.Violations[i].Key < o.Violations[j].Key })
 	b, err := json.Marshal(o)
 	if err != nil {
